@@ -1,5 +1,6 @@
 import Nject.WF
 import Nject.Edit
+import Nject.Pipeline
 /-
   Line-protocol driver: reads the case blocks the Go harness writes, rebuilds the compiled
   chain from the implementation's own S7 dump, runs `Exec` and `Spec` with the scripted
@@ -143,6 +144,20 @@ def parseScript (toks : List String) : Script :=
     ins := fieldNats toks "in", outs := fieldNats toks "out", iin := fieldNats toks "iin", iout := fieldNats toks "iout",
     fail := fieldNat toks "fail", calls := fieldNat toks "calls", pass := fieldNat toks "pass" == 1 }
 
+def parsePDesc (toks : List String) : PDesc :=
+  let k := field toks "kind"
+  { idx := (toks.getD 1 "0").toNat?.getD 0,
+    kind := if k == "lit" then .lit else if k == "wrap" then .wrap else .func,
+    ins := fieldNats toks "in", outs := fieldNats toks "out", iin := fieldNats toks "iin", iout := fieldNats toks "iout",
+    required := hasFlag toks "ann" "required", desired := hasFlag toks "ann" "desired", shun := hasFlag toks "ann" "shun",
+    cacheable := hasFlag toks "ann" "cacheable" || hasFlag toks "ann" "mustcache" || hasFlag toks "ann" "memoize" || hasFlag toks "ann" "singleton",
+    mustCache := hasFlag toks "ann" "mustcache" || hasFlag toks "ann" "singleton",
+    notCacheable := hasFlag toks "ann" "notcacheable", memoize := hasFlag toks "ann" "memoize",
+    singleton := hasFlag toks "ann" "singleton", nonFinal := hasFlag toks "ann" "nonfinal",
+    reorder := hasFlag toks "ann" "reorder", parallel := hasFlag toks "ann" "parallel", refl := hasFlag toks "ann" "refl",
+    loose := fieldNats toks "loose", mustConsume := fieldNats toks "mc", consOpt := fieldNats toks "co",
+    shadowOK := fieldNats toks "sh", cluster := fieldNat toks "cluster" }
+
 def toNode (f : FLine) : Node :=
   let kind : Kind :=
     if f.cls == "wrapper-func" then .wrapper
@@ -204,6 +219,9 @@ structure CaseAcc where
   bindOk : Bool := false
   ops : List (String × List Val) := []
   enodes : List ENode := []        -- pre-edit list (reversed)
+  pdescs : List PDesc := []        -- reversed
+  invSig : Sig := ⟨[], []⟩
+  initSig : Option Sig := none
 deriving Inhabited
 
 def fmtEditErr : EditErr → String
@@ -219,11 +237,36 @@ def runEdit (a : CaseAcc) : String :=
   | .ok l => "m1 ok " ++ (if l.isEmpty then "-" else ",".intercalate (l.map fun n => toString n.idx))
   | .error e => "m1 err " ++ fmtEditErr e
 
+def classStr : ClassT → String
+  | .unsetClassType => "?" | .fallibleInjectorFunc => "fallible-injector"
+  | .fallibleStaticInjectorFunc => "fallible-static-injector" | .injectorFunc => "injector"
+  | .wrapperFunc => "wrapper-func" | .finalFunc => "final-func" | .staticInjectorFunc => "static-injector"
+  | .literalValue => "literal-value" | .initFunc => "init-func" | .invokeFunc => "invoke-func"
+
+def groupStr : GroupT → String
+  | .invokeGroup => "invoke" | .literalGroup => "literal" | .staticGroup => "static" | .runGroup => "run"
+  | .finalGroup => "final"
+
+def fmtTys (l : List Ty) : String := if l.isEmpty then "-" else ",".intercalate (l.map toString)
+
+def fmtCP (c : CP) : String :=
+  s!"{c.id}:{classStr c.cls}:{groupStr c.group}:{fmtTys c.ret}/{fmtTys c.out}/{fmtTys c.inp}/{fmtTys c.recv}/{fmtTys c.byp}"
+
+/-- S2/S3: the model's assembled function list -/
+def runAssemble (a : CaseAcc) : List String :=
+  match editAll a.enodes.reverse with
+  | .error _ => []
+  | .ok order =>
+    let provs := order.filterMap fun n => a.pdescs.find? (·.idx == n.idx)
+    match assemble provs a.invSig a.initSig with
+    | none => ["m3 err E_CLASSIFY"]
+    | some asm => [s!"m3 ok inv={asm.invokeIndex} " ++ " ".intercalate (asm.funcs.map fmtCP)]
+
 /-- run all ops through Exec and Spec; returns output lines -/
 def runCase (a : CaseAcc) : List String :=
-  if !a.bindOk then [s!"case {a.n}", runEdit a, "skip nobind", "end"] else
+  if !a.bindOk then [s!"case {a.n}", runEdit a] ++ runAssemble a ++ ["skip nobind", "end"] else
   match mkCompiled a.vcount a.flines.reverse a.dv a.uv with
-  | none => [s!"case {a.n}", runEdit a, "skip nodump", "end"]
+  | none => [s!"case {a.n}", runEdit a] ++ runAssemble a ++ ["skip nodump", "end"]
   | some c =>
     let b := mkBeh a.scripts
     let wf := match checkWF c with
@@ -245,13 +288,16 @@ def runCase (a : CaseAcc) : List String :=
       (ls ++ evs.map ("s " ++ ·) ++ [s!"s ret {fmtVals res}"], s')) ([], c.specBindState)
     let (fl, fnode) := (buildProg c.run c.fin).flatten
     let prog := if fl.map (·.id) == c.run.map (·.id) && fnode.id == c.fin.id then "prog ok" else "prog fail"
-    [s!"case {a.n}", runEdit a, wf, sup, prog] ++ xl ++ sl ++ ["end"]
+    [s!"case {a.n}", runEdit a] ++ runAssemble a ++ [wf, sup, prog] ++ xl ++ sl ++ ["end"]
 
 def stepLine (a : CaseAcc) (line : String) : CaseAcc × List String :=
   let toks := (line.splitOn " ").filter (· != "")
   match toks with
   | "case" :: n :: _ => ({ n := n }, [])
-  | "p" :: _ => ({ a with scripts := parseScript toks :: a.scripts }, [])
+  | "p" :: _ => ({ a with scripts := parseScript toks :: a.scripts, pdescs := parsePDesc toks :: a.pdescs }, [])
+  | "invoke" :: _ => ({ a with invSig := ⟨fieldNats toks "in", fieldNats toks "out"⟩ }, [])
+  | "init" :: "none" :: _ => ({ a with initSig := none }, [])
+  | "init" :: _ => ({ a with initSig := some ⟨fieldNats toks "in", fieldNats toks "out"⟩ }, [])
   | "e" :: i :: _ =>
     ({ a with enodes := { idx := i.toNat?.getD 0, origin := fieldNat toks "origin", rep := fieldNat toks "rep",
                           bef := fieldNat toks "bef", aft := fieldNat toks "aft",
